@@ -468,7 +468,12 @@ func checkC08(c AxisCase) (bool, *Violation) {
 				return heldNote{}, false
 			}
 			p := *notes[k] + 12*ws.Pre.Octave + ws.Pre.Semitone
-			return heldNote{ws.Pre.Channel, p}, p >= 0 && p <= 127
+			off := [2]*int{a.Off, a.OffNeg}[k]
+			ch := ws.Pre.Channel
+			if off != nil {
+				ch = (ch + *off) % 16
+			}
+			return heldNote{ch, p}, p >= 0 && p <= 127
 		}
 		if !ambiguous {
 			// target region
